@@ -67,7 +67,7 @@ pub mod ansi {
     pub fn ansi_preserving_slice(s: &str, start: usize) -> (r: String) ensures r@ == slice_keeping_escapes(s@, start) { unimplemented!() }
 }
 //@ fn src/paint.rs prepare_raw_line
-//@| ensures r@ == slice_keeping_escapes(expand_spec(raw_line@, &config.tab_cfg).push('\n'), prefix_length),  // @C01,C08:a.line.kept.with.its.colours.has.its.tabs.expanded.like.every.other.line.then.loses.the.marker.columns.and.nothing.else
+//@| ensures r@ == slice_keeping_escapes(expand_spec(raw_line@, &config.tab_cfg), prefix_length).push('\n'),  // @C01,C08:a.line.kept.with.its.colours.has.its.tabs.expanded.like.every.other.line.then.loses.the.marker.columns.and.nothing.else.it.always.ends.with.its.newline
 
 } // verus!
 fn main() {}
